@@ -604,4 +604,66 @@ theorem enc_replace_back (c : Codec) (g : c.Good) (eol : Str) (ha : IsAscii eol)
           · have := g.high ch y1 (by omega) h1 x hx
             omega
 
+/-! ### codecs for which the assumptions are discharged -/
+
+theorem latin1_good : latin1.Good where
+  enc_nil := rfl
+  enc_cons := by
+    intro ch s
+    simp only [latin1, List.all_cons, List.all_nil, Bool.and_true]
+    by_cases h1 : isByte ch = true <;> by_cases h2 : s.all isByte = true <;> simp [h1, h2]
+  ascii := by
+    intro ch h
+    have : isByte ch = true := by simp [isByte]; omega
+    simp [latin1, this]
+  high := by
+    intro ch b h hb x hx
+    simp only [latin1, List.all_cons, List.all_nil, Bool.and_true] at hb
+    split at hb
+    · cases hb; simp at hx; subst hx; exact h
+    · cases hb
+  bom_high := by intro x hx; simp [latin1] at hx
+  dec_enc := by
+    intro s b h
+    simp only [latin1] at h ⊢
+    split at h
+    · rename_i hs; cases h; simp [hs]
+    · cases h
+
+def is7 (ch : Char) : Bool := ch.toNat < 128
+
+/-- 7-bit text behind the UTF-8 signature: the smallest codec with a start-of-stream mark
+(what `utf-8-sig` is on ASCII text) -/
+def asciiSig : Codec :=
+  { bom := bomUtf8
+    enc := fun s => if s.all is7 then some s else none
+    dec := fun b => if b.all is7 then some b else none }
+
+theorem asciiSig_good : asciiSig.Good where
+  enc_nil := rfl
+  enc_cons := by
+    intro ch s
+    simp only [asciiSig, List.all_cons, List.all_nil, Bool.and_true]
+    by_cases h1 : is7 ch = true <;> by_cases h2 : s.all is7 = true <;> simp [h1, h2]
+  ascii := by
+    intro ch h
+    have : is7 ch = true := by simp [is7]; omega
+    simp [asciiSig, this]
+  high := by
+    intro ch b h hb x hx
+    simp only [asciiSig, List.all_cons, List.all_nil, Bool.and_true] at hb
+    split at hb
+    · cases hb; simp at hx; subst hx; exact h
+    · cases hb
+  bom_high := by
+    intro x hx
+    simp only [asciiSig, bomUtf8, List.mem_cons, List.not_mem_nil, or_false] at hx
+    rcases hx with rfl | rfl | rfl <;> decide
+  dec_enc := by
+    intro s b h
+    simp only [asciiSig] at h ⊢
+    split at h
+    · rename_i hs; cases h; simp [hs]
+    · cases h
+
 end N0.Files
